@@ -117,7 +117,15 @@ def catalogue():
         "comprehension-over-non-list": [A.let(v("f_c"), A.listc(v("f_y"), "f_y", s("x")))],
         "nullable-regex": [A.scan(s("aaa"), ("a*", [A.node(v("f_n"))]))],
         "nullable-regex-second-arm": [A.scan(s("aaa"), ("a", [A.node(v("f_n"))]), ("(b)?", [A.node(v("f_n2"))]))],
+        "some-on-scoped": [A.iff(([A.cond("some", A.svar(A.cap("__ANYCAP__"), "f_sv"))], [A.node(v("f_n"))]))],
+        "none-on-call-of-scoped": [A.iff(([A.cond("none", A.call("is-null", A.svar(A.cap("__ANYCAP__"), "f_sv")))], [A.node(v("f_n"))]))],
+        "some-on-mutable-string": mv + [A.iff(([A.cond("some", v("fmv"))], [A.node(v("f_n"))]))],
+        # shadowing in a nested block: the inner declaration decides, whatever the outer one is
+        "inner-nonlocal-shadows-outer-local": [A.let(v("f_s"), s("ab")), A.iff(([A.cond("bool", A.true())], [A.mut(v("f_s"), s("cd")), A.scan(v("f_s"), ("a", [A.node(v("f_n"))]))]))],
+        "inner-single-shadows-outer-list": [A.let(v("f_s"), A.lst(i(1))), A.forin("f_o", A.lst(i(1)), [A.let(v("f_s"), i(1)), A.forin("f_x", v("f_s"), [A.node(v("f_n"))])])],
         # legal neighbours (must stay accepted): they look like faults but break no rule
+        "ok-inner-local-shadows-outer-mutable": mv + [A.iff(([A.cond("bool", A.true())], [A.let(v("fmv"), s("abc")), A.scan(v("fmv"), ("a", [A.node(v("f_n"))]))]))],
+        "ok-inner-list-shadows-outer-single": [A.let(v("f_s"), i(1)), A.forin("f_o", A.lst(i(1)), [A.let(v("f_s"), A.lst(i(1), i(2))), A.forin("f_x", v("f_s"), [A.node(v("f_n"))])])],
         "ok-shadow-in-nested-block": [A.let(v("f_s"), i(1)), A.iff(([A.cond("bool", A.true())], [A.let(v("f_s"), i(2))]))],
         "ok-for-over-list-global": [A.forin("f_x", v("GL"), [A.node(v("f_n"))])],
         "ok-scan-of-call-of-locals": [A.let(v("f_k"), s("ab")), A.scan(A.call("format", s("{}"), v("f_k")), ("a", [A.node(v("f_n"))]))],
@@ -277,7 +285,7 @@ def run(tier):
             continue
         # generator sanity (OneFaultOneVerdict on the model side): faults are rejected by the specification, neighbours accepted
         if fault.startswith("none") or fault.startswith("ok-") or fault in ("underscore-capture-unused-ok", "shorthand-ok", "capture-used-only-in-later-call-arg-ok"):
-            if not v["ok"] and fault in ("capture-used-only-in-later-call-arg-ok", "none", "ok-shadow-in-nested-block", "ok-for-over-list-global", "ok-scan-of-call-of-locals",
+            if not v["ok"] and fault in ("capture-used-only-in-later-call-arg-ok", "ok-inner-local-shadows-outer-mutable", "ok-inner-list-shadows-outer-single", "none", "ok-shadow-in-nested-block", "ok-for-over-list-global", "ok-scan-of-call-of-locals",
                                           "ok-set-mutable-in-nested", "ok-runtime-empty-regex", "underscore-capture-unused-ok", "shorthand-ok"):
                 raise C.ToolError("the specification rejects a file built to be valid (%s): %s" % (fault, v))
         elif v["ok"] and not c["id"].startswith("c06gf"):
